@@ -651,6 +651,124 @@ def probe_views_current():
         return False
 
 
+# ------------------------------------------------------------------ wave 10: sessions begun with settings that carry RUN SPECS
+def session_runspecs(case, facts):
+    """begin_session (Python and REST instance) with settings containing `runspecs` (dt / stoptime / starttime alone or combined, decimal dt, with or
+    without a constant), twice in a row on one object: every session channel (run_step replies, by-equation view, REST stream-steps, GET session-results)
+    must walk the grid and report the values of the BATCH run of a model built directly with the accumulated run specs and constant."""
+    from BPTK_Py.server import BptkServer
+    eqs, names = case["eqs"], [EQN[e] for e in case["eqs"]]
+    created, problems = [], []
+    curs = cumulative(case)
+    def series(rows):
+        return ";".join("%d=" % e + ",".join("%s:%s" % (fbits(float(t)), fbits(v)) for x in rows for t, v in x[SM][SC][EQN[e]].items()) for e in eqs)
+    def byeq(res):
+        try:
+            d = res[SM][SC]["equations"]
+            return ";".join("%d=" % e + ",".join("%s:%s" % (fbits(float(t)), fbits(v)) for t, v in d[EQN[e]].items()) for e in eqs)
+        except Exception as ex:  # noqa
+            return "malformed:%s" % type(ex).__name__
+    try:
+        bp = fb_factory(case, created)()
+        cl = BptkServer(__name__, fb_factory(case, created)).test_client()
+        iid = json.loads(cl.post("/start-instance", json={}).data)["instance_uuid"]
+        for i, (r, cur) in enumerate(zip(case["reqs"], curs)):
+            stg = req_settings(r) if r is not None else {}
+            want = canon_run(fb_factory(case, created, cur)().run_scenarios(scenarios=[SC], scenario_managers=[SM], equations=names, return_format="dict", series_names={}), eqs)
+            bp.begin_session(scenarios=[SC], scenario_managers=[SM], equations=names, settings=stg)
+            rows, guard = [], 0
+            while guard < 2000:
+                x = bp.run_step(); guard += 1
+                if not x or "msg" in x:
+                    break
+                rows.append(x)
+            got = {"Python run_step": series(rows), "Python session_results(index_by_time=False)": byeq(bp.session_results(index_by_time=False))}
+            cl.post("/%s/begin-session" % iid, json={"scenario_managers": [SM], "scenarios": [SC], "equations": names, "settings": stg})
+            rr = [_keys(x) for x in json.loads(cl.post("/%s/stream-steps" % iid, json={"settings": {}}).get_data(as_text=True))]
+            got["REST stream-steps"] = series(rr)
+            got["GET session-results"] = byeq(_keys(json.loads(cl.get("/%s/session-results" % iid).data)))
+            for where, g in got.items():
+                if g != want and not problems:
+                    ga, wa = g.split(";")[0].split("=")[1].split(","), want.split(";")[0].split("=")[1].split(",")
+                    grid = lambda xs: [from_fbits(x.split(":")[0]) for x in xs if ":" in x]
+                    problems.append(("session-runspecs-settings", "session %d begun with settings %s (accumulated c=%r start=%r stop=%r dt=%r): %s walks the grid %s…, the batch run of a model "
+                                     "built with these run specs %s… (%d vs %d points)" % (i, stg.get(SM, {}).get(SC, {}), cur[0], cur[1], cur[2], cur[3], where, grid(ga)[:5], grid(wa)[:5], len(ga), len(wa))
+                                     if grid(ga) != grid(wa) else
+                                     "session %d begun with settings %s: %s reports other VALUES than the batch run of a model built with these run specs" % (i, stg.get(SM, {}).get(SC, {}), where),
+                                     {"session": i, "where": where, "got": g, "batch": want}))
+    finally:
+        for b in created:
+            b.destroy()
+    return problems
+
+
+def gen_session_runspecs(rng):
+    case = gen_run_sequence(rng)
+    case["reqs"] = []
+    for _ in range(rng.range(1, 2)):
+        r = {}
+        which = rng.below(6)
+        if which in (0, 3, 5): r["dt"] = rng.choice([0.5, 0.25, 0.2, 0.1, 1.0])
+        if which in (1, 3, 4): r["stop"] = rng.choice([3.0, 4.0, 5.0, 6.0])
+        if which in (2, 4, 5): r["start"] = rng.choice([0.0, 1.0, 2.0])
+        if rng.chance(1, 3): r["c"] = rng.choice([0.1, 0.3, 0.5])
+        case["reqs"].append(r)
+    return case
+
+
+FIXED_SESSION_RUNSPECS = [
+    {"b": 1.0, "s0": 100.0, "c0": 0.1, "start": 0.0, "dt": 1.0, "stop": 4.0, "eqs": [2, 1], "reqs": [{"dt": 0.5}, None]},
+    {"b": 1.0, "s0": 100.0, "c0": 0.1, "start": 0.0, "dt": 1.0, "stop": 4.0, "eqs": [2], "reqs": [{"stop": 6.0}, {"start": 1.0, "dt": 0.2}]},
+    {"b": 3.0, "s0": 1.0, "c0": 0.5, "start": 1.0, "dt": 0.5, "stop": 3.0, "eqs": [3, 1], "reqs": [{"start": 0.0}, {"dt": 0.1, "c": 0.25}]},
+]
+
+
+# ------------------------------------------------------------------ wave 10: several SD scenarios with different grids in ONE run_scenarios call
+def multi_scenario_batch(case):
+    """two scenarios of one manager with different stop times / dts, run in one call, both listing orders: the dataframe, the dict and the json format
+    must report every scenario's value at every time of ITS grid (= the scenario run alone)"""
+    created, problems = [], []
+    try:
+        from BPTK_Py import Model, bptk
+        m = Model(starttime=case["start"], stoptime=case["stop"], dt=case["dt"], name="c09ms")
+        c = m.constant("c"); f = m.flow("f"); s = m.stock("s")
+        c.equation = case["c0"]; f.equation = s * c; s.initial_value = case["s0"]; s.equation = f
+        bp = bptk(); created.append(bp)
+        bp.register_scenario_manager({SM: {"model": m}})
+        bp.register_scenarios(scenarios={"one": {"runspecs": dict(case["rs1"])}, "two": {"runspecs": dict(case["rs2"])}}, scenario_manager=SM)
+        alone = {}
+        for scn in ("one", "two"):
+            d = bp.run_scenarios(scenarios=[scn], scenario_managers=[SM], equations=["s"], return_format="dict", series_names={})
+            alone[scn] = {fbits(float(t)): fbits(v) for t, v in d[SM][scn]["equations"]["s"].items()}
+        for order in (["one", "two"], ["two", "one"]):
+            df = bp.run_scenarios(scenarios=order, scenario_managers=[SM], equations=["s"], return_format="df", series_names={})
+            dd = bp.run_scenarios(scenarios=order, scenario_managers=[SM], equations=["s"], return_format="dict", series_names={})
+            jj = json.loads(bp.run_scenarios(scenarios=order, scenario_managers=[SM], equations=["s"], return_format="json", series_names={}))
+            for scn in order:
+                col = next((c_ for c_ in df.columns if c_ == "%s_%s_s" % (SM, scn)), None)
+                got = {"df": {fbits(float(t)): fbits(v) for t, v in df[col].items() if v == v} if col else {},
+                       "dict": {fbits(float(t)): fbits(v) for t, v in dd[SM][scn]["equations"]["s"].items()},
+                       "json": {fbits(float(t)): fbits(v) for t, v in jj[SM][scn]["equations"]["s"].items()}}
+                for fmt, g in got.items():
+                    if g != alone[scn] and not problems:
+                        problems.append(("batch-formats-multi-scenario", "run_scenarios(scenarios=%r, return_format=%r): scenario %r (run specs %s) is reported at the times %s, run alone it has %s"
+                                         % (order, fmt, scn, case["rs1"] if scn == "one" else case["rs2"], sorted(from_fbits(t) for t in g), sorted(from_fbits(t) for t in alone[scn]))
+                                         if sorted(g) != sorted(alone[scn]) else
+                                         "run_scenarios(scenarios=%r, return_format=%r): scenario %r has other values than run alone" % (order, fmt, scn),
+                                         {"order": order, "format": fmt, "scenario": scn}))
+    finally:
+        for b in created:
+            b.destroy()
+    return problems
+
+
+FIXED_MULTI_BATCH = [
+    {"start": 0.0, "stop": 2.0, "dt": 1.0, "c0": 0.5, "s0": 1.0, "rs1": {"stoptime": 2.0}, "rs2": {"stoptime": 4.0, "dt": 0.5}},
+    {"start": 0.0, "stop": 3.0, "dt": 1.0, "c0": 0.1, "s0": 100.0, "rs1": {"stoptime": 5.0}, "rs2": {"starttime": 1.0}},
+    {"start": 1.0, "stop": 3.0, "dt": 0.5, "c0": 0.25, "s0": 2.5, "rs1": {"dt": 0.25}, "rs2": {"dt": 1.0, "stoptime": 4.0}},
+]
+
+
 # ------------------------------------------------------------------ probes
 def probe_case(dt, n, eqs, calls, start=0.0):
     return {"a": 1.0, "b": 1.0, "s0": 0.0, "c0": 1.0, "start": start, "dt": dt, "stop": start + n * dt if dt != 0.1 else round(start + n * dt, 10),
@@ -1101,7 +1219,7 @@ def run(chk):
             found.setdefault(key, (case, text, detail))
     # ---- wave 3: sequences of /run requests on one server (feedback family)
     seqs = [dict(c) for c in FIXED_SEQUENCES] + [gen_run_sequence(rng.fork("runseq%d" % i)) for i in range(40 if chk.quick else 400)]
-    life_found = {}
+    life_found, srs_found, mb_found = {}, {}, {}
     seq_found, kinds = {}, {"no settings": 0, "runspecs only": 0, "constants only": 0, "both": 0}
     for sc_ in seqs:
         try:
@@ -1131,6 +1249,27 @@ def run(chk):
         for key, text, detail in problems:
             life_found.setdefault(key, (lcase, text, detail))
     dist["session_lifecycles"] = lc
+    # ---- wave 10: sessions begun with run specs in their settings
+    srs = [dict(c) for c in FIXED_SESSION_RUNSPECS] + [gen_session_runspecs(rng.fork("srs%d" % i)) for i in range(15 if chk.quick else 150)]
+    for sc_ in srs:
+        try:
+            problems = session_runspecs(sc_, facts)
+        except Exception as ex:  # noqa
+            problems = [("channel-error", "session with run-spec settings %s: %s" % (type(ex).__name__, ex), {})]
+        chk.case(json.dumps({"session_runspecs": seq_show(sc_)}, sort_keys=True), nontrivial=True)
+        for key, text, detail in problems:
+            srs_found.setdefault(key, (sc_, text, detail))
+    for mb in FIXED_MULTI_BATCH:
+        try:
+            problems = multi_scenario_batch(mb)
+        except Exception as ex:  # noqa
+            problems = [("channel-error", "several scenarios in one run_scenarios call %s: %s" % (type(ex).__name__, ex), {})]
+        chk.case(json.dumps({"multi_scenario_batch": mb}, sort_keys=True), nontrivial=True)
+        for key, text, detail in problems:
+            if key not in mb_found:
+                mb_found[key] = (mb, text, detail)
+    dist["two scenarios with different grids in one run_scenarios call (both orders, 3 formats)"] = len(FIXED_MULTI_BATCH)
+    dist["sessions begun with runspecs settings"] = {"cases": len(srs), "sessions": sum(len(c["reqs"]) for c in srs)}
     chk.cov["input_distribution"] = dist
     chk.cov["skipped_run_specs_hit_by_C05_until_plus_dt"] = skipped
     chk.notes["sim_bound_exact (C05)"] = SIM_BOUND_OK
@@ -1181,6 +1320,31 @@ def run(chk):
                     small, text, detail, changed = cand, pr[0][1], pr[0][2], True
                     break
         chk.add_finding(key, f"one server, sequence of POST /run requests {seq_show(small)}: {text}", {"sequence": small, "key": key, "detail": detail})
+    for key, (sc_, text, detail) in srs_found.items():
+        small = dict(sc_)
+        for i in range(len(small["reqs"])):                   # shrink: one session, then single run-spec keys
+            cand = dict(small, reqs=[small["reqs"][i]])
+            try:
+                pr = [p for p in session_runspecs(cand, facts) if p[0] == key]
+            except Exception:  # noqa
+                pr = []
+            if pr:
+                small, text, detail = cand, pr[0][1], pr[0][2]
+                break
+        r0 = small["reqs"][0] if len(small["reqs"]) == 1 and small["reqs"][0] else None
+        for k_ in (list(r0) if r0 else []):
+            cand = dict(small, reqs=[{a_: b_ for a_, b_ in r0.items() if a_ != k_}])
+            try:
+                pr = [p for p in session_runspecs(cand, facts) if p[0] == key] if cand["reqs"][0] else []
+            except Exception:  # noqa
+                pr = []
+            if pr:
+                small, text, detail, r0 = cand, pr[0][1], pr[0][2], cand["reqs"][0]
+        chk.add_finding(key, f"feedback model {seq_show(small)} — the `run_requests` are the settings of successive begin_session calls on one object: {text}",
+                        {"session_runspecs": small, "key": key, "detail": detail})
+    for key, (mb, text, detail) in mb_found.items():
+        chk.add_finding(key, f"growth model, manager with scenarios one {mb['rs1']} and two {mb['rs2']} (model run specs start {mb['start']} stop {mb['stop']} dt {mb['dt']}): {text}",
+                        {"multi_scenario_batch": mb, "key": key, "detail": detail})
     for key, (lcase, text, detail) in life_found.items():
         small = dict(lcase)
         def lfails(c_):
@@ -1229,7 +1393,7 @@ def run(chk):
         "perkey": ("case", dict(probe_case(1.0, 4, [0, 4], [("step", None), ("step", (("c", 5.0), ("d", 7.0)))]), family="two", d0=0.5), "settings-dictionary-per-key", "C09_witness_last_value"),
         "views": ("lifecycle", FIXED_LIFECYCLES[0], "session-views-lifecycle", "C09_witness_view_cache"),
     }
-    any_concrete = bool(found) or bool(seq_found) or bool(life_found)
+    any_concrete = bool(found) or bool(seq_found) or bool(life_found) or bool(srs_found) or bool(mb_found)
     for fact, (kind, fcase, key, witness) in fallbacks.items():
         if facts[fact] or any_concrete:
             continue
@@ -1248,7 +1412,7 @@ def run(chk):
     if not ok:
         chk.add_finding("obligation", f"proof obligations of C09 no longer check: {why}",
                         {"theorem": "Bptk.C09.Gen.holds / Bptk.Props.C09", "detail": why}, found_input=False)
-    if diff is not None and not found and not seq_found and not life_found:
+    if diff is not None and not found and not seq_found and not life_found and not srs_found and not mb_found:
         ci = owner[diff] if diff < len(owner) else None
         chk.add_finding("correspondence", f"model and implementation disagree at protocol line {diff}: request {req[diff] if diff < len(req) else None!r}",
                         {"correspondence": "Drive/C09 vs run_scenarios / session API / REST", "line": diff,
@@ -1260,6 +1424,17 @@ def run(chk):
 def replay(path):
     quiet_bptk_logging()
     r = json.load(open(path))["replay"]
+    if "multi_scenario_batch" in r:
+        problems = multi_scenario_batch(r["multi_scenario_batch"])
+        for p in problems:
+            print("problem on the current tree:", p[0], "-", p[1])
+        return 1 if problems else 0
+    if "session_runspecs" in r:
+        print("sessions begun with run-spec settings:", seq_show(r["session_runspecs"]))
+        problems = session_runspecs(r["session_runspecs"], None)
+        for p in problems:
+            print("problem on the current tree:", p[0], "-", p[1])
+        return 1 if problems else 0
     if "lifecycle" in r:
         print("session lifecycle on one object:", lifecycle_show(r["lifecycle"]))
         problems = lifecycle(r["lifecycle"], None)[2]
